@@ -33,6 +33,10 @@ PURE_METHODS = {'strip', 'lstrip', 'rstrip', 'split', 'rsplit', 'splitlines', 'j
 MUTATORS = {'append', 'extend', 'add', 'update', 'insert', 'setdefault', 'appendleft'}
 SCAN_FUNCS = {'re.sub', 're.subn'}
 SCAN_METHODS = {'sub', 'subn'}
+# scans that enumerate every match of the pattern in a text without substituting themselves (the caller assembles the result):
+# `re.finditer/findall/split(pattern, TEXT)`, `<pattern>.finditer/findall(TEXT)` (`.split` is not listed as a method: str has one too)
+ITER_SCAN_FUNCS = {'re.finditer', 're.findall', 're.split'}
+ITER_SCAN_METHODS = {'finditer', 'findall'}
 LOGGING = {'mlog', 'FeatureNew', 'FeatureDeprecated'}
 
 
@@ -90,6 +94,24 @@ class Analysis:
         fn = self.mod.func(q)
         return [a.arg for a in fn.args.posonlyargs + fn.args.args + fn.args.kwonlyargs]
 
+    def free_vars(self, q: str) -> T.List[str]:
+        """Free variables of a nested function that are parameters / locals of an enclosing function: implicit arguments, bound to what the
+        enclosing scope holds when the closure runs."""
+        if '.' not in q or not self.mod.has_func(q.rsplit('.', 1)[0]):
+            return []
+        fn = self.mod.func(q)
+        own = set(self.params(q)) | {n.id for n in ast.walk(fn) if isinstance(n, ast.Name) and isinstance(n.ctx, ast.Store)}
+        own |= {n.name for n in ast.walk(fn) if isinstance(n, (ast.FunctionDef, ast.AsyncFunctionDef)) and n is not fn}
+        loaded = {n.id for n in ast.walk(fn) if isinstance(n, ast.Name) and isinstance(n.ctx, ast.Load)} - own
+        outer: T.Set[str] = set()
+        parts = q.split('.')
+        for i in range(1, len(parts)):
+            qq = '.'.join(parts[:i])
+            if self.mod.has_func(qq):
+                ofn = self.mod.func(qq)
+                outer |= set(self.params(qq)) | {n.id for n in ast.walk(ofn) if isinstance(n, ast.Name) and isinstance(n.ctx, ast.Store)}
+        return sorted(loaded & outer)
+
     # -- summaries ------------------------------------------------------------
     def summary(self, q: str) -> Summary:
         if q in self.summaries:
@@ -146,7 +168,7 @@ class Analysis:
             if not isinstance(n, ast.Call):
                 continue
             cn = attr_chain(n.func)
-            if cn in SCAN_FUNCS or (isinstance(n.func, ast.Attribute) and n.func.attr in SCAN_METHODS):
+            if cn in SCAN_FUNCS or cn in ITER_SCAN_FUNCS or (isinstance(n.func, ast.Attribute) and n.func.attr in SCAN_METHODS | ITER_SCAN_METHODS):
                 res = True
                 break
             if isinstance(n.func, ast.Name):
@@ -166,6 +188,8 @@ class Analysis:
         env: T.Dict[str, Tags] = dict(self._outer_tags(q))
         for c in conf:
             env[c] = env.get(c, EMPTY) | {'C'}
+        for p in self.free_vars(q):
+            env[p] = env.get(p, EMPTY) | {'P:' + p}
         for p in self.params(q):
             env[p] = frozenset({'P:' + p} | ({'C'} if p in conf else set()))
         ev = _Eval(self, q, s, record=False)
@@ -173,6 +197,8 @@ class Analysis:
             for st in ast.walk(fn):
                 if isinstance(st, (ast.FunctionDef, ast.AsyncFunctionDef, ast.Lambda)) and st is not fn:
                     continue
+                if isinstance(st, ast.Expr) and isinstance(st.value, (ast.Yield, ast.YieldFrom)):
+                    ev.tags(st.value, env)
                 if isinstance(st, (ast.Assign, ast.AnnAssign, ast.AugAssign)):
                     try:
                         ev.stmt(st, env, weak=True)
@@ -194,6 +220,9 @@ class Analysis:
         base: T.Dict[str, Tags] = dict(self._outer_tags(q))
         for c in conf:
             base[c] = base.get(c, EMPTY) | {'C'}
+        free = self.free_vars(q)
+        for p in free:
+            base[p] = base.get(p, EMPTY) | {'P:' + p}
         for p in own:
             base[p] = frozenset({'P:' + p} | ({'C'} if p in conf else set()))
         paths = enumerate_paths(fn.body, unroll=2, handlers=True, max_paths=5000)
@@ -239,8 +268,16 @@ class Analysis:
         s.sinks = list(seen_sinks.values())
         for snk in s.sinks:
             for t in snk.tags:
-                if t.startswith('P:') and t[2:] in own:
+                if t.startswith('P:') and (t[2:] in own or t[2:] in free):
                     s.scan_params.setdefault(t[2:], snk.root)
+        # a closure that is handed on as a value (not called by name here) may run with whatever the variables it captures hold:
+        # what it scans of them is scanned of this function's parameters (path-insensitive)
+        called = {id(c.func) for c in ast.walk(fn) if isinstance(c, ast.Call)}
+        for n in ast.walk(fn):
+            if isinstance(n, ast.Name) and isinstance(n.ctx, ast.Load) and id(n) not in called and self.mod.has_func(q + '.' + n.id):
+                for p, why in self.summary(q + '.' + n.id).scan_params.items():
+                    if p in own or p in free:
+                        s.scan_params.setdefault(p, why)
         return s
 
     def _try_of(self, fn: ast.AST, h: ast.AST) -> T.Optional[ast.Try]:
@@ -284,6 +321,10 @@ class _Eval:
             return base
         if isinstance(e, ast.Lambda):
             return self.tags(e.body, env)
+        if isinstance(e, (ast.Yield, ast.YieldFrom)):
+            # a generator function hands its yielded values to whoever iterates the call: they are its result
+            self.summ.ret = self.summ.ret | (self.tags(e.value, env) - {'C'})
+            return EMPTY
         if isinstance(e, (ast.ListComp, ast.SetComp, ast.GeneratorExp, ast.DictComp)):
             env2 = dict(env)
             for g in e.generators:
@@ -329,6 +370,14 @@ class _Eval:
                     t_repl = frozenset(t for t in self.an.summary(rq).ret if not t.startswith('P:'))
             other = self.union([a for a in args if a is not text and a is not repl], env)
             return frozenset((t_text | t_repl | other) - {'C'})
+        if cn in ITER_SCAN_FUNCS or (isinstance(e.func, ast.Attribute) and e.func.attr in ITER_SCAN_METHODS and not (cn or '').startswith('re.')):
+            text = (args[1] if len(args) > 1 else kws.get('string')) if cn in ITER_SCAN_FUNCS else (args[0] if args else kws.get('string'))
+            if text is None or any(isinstance(a, ast.Starred) for a in args):
+                raise Undecided(f'{self.q}: scan call with unrecognised arguments: {short(e)}')
+            t_text = self.tags(text, env)
+            self.sink(e, 'text of ' + (cn or norm(e.func)), t_text, f'{short(e)} in {self.q}')
+            other = self.union([a for a in args + list(kws.values()) if a is not text], env)
+            return frozenset((t_text | other) - {'C'})      # match objects / pieces of the text
         # module functions (by summary)
         if isinstance(e.func, ast.Name):
             rq = self.an.resolve(self.q, e.func.id)
@@ -382,9 +431,17 @@ class _Eval:
             actual[k.arg] = k.value
         summ = self.an.summary(rq)
         a_tags = {p: self.tags(a, env) for p, a in actual.items()}
+        encl = rq.rsplit('.', 1)[0]
+        if '.' in rq and (self.q == encl or self.q.startswith(encl + '.')):
+            # a closure called from the scope that defines it: its free variables are implicit arguments, bound to what the scope holds now
+            for p in self.an.free_vars(rq):
+                if p not in actual:
+                    a_tags[p] = env.get(p, EMPTY)
         for p, why in summ.scan_params.items():
             if p in actual:
                 self.sink(e, f'argument `{p}` of {rq}', a_tags[p], why)
+            elif p in a_tags:
+                self.sink(e, f'variable `{p}` captured by {rq}', a_tags[p], why)
         out: T.Set[str] = set()
         for t in summ.ret:
             if t.startswith('P:'):
